@@ -36,7 +36,7 @@ MANIFEST = dict(
 )
 
 IMPORTS = ['Coq.ZArith.ZArith', 'Coq.NArith.NArith', 'Coq.Lists.List', 'Coq.Strings.String', 'SV.Num.Mod360', 'SV.Num.AngleSites',
-           'SV.Num.Dec6', 'SV.Num.Dec6CarveProofs', 'SV.SM.FrozenOps', 'SV.Gen.AngleSites_gen']
+           'SV.Num.Dec6', 'SV.Num.Dec6CarveProofs', 'SV.Num.VecText', 'SV.SM.FrozenOps', 'SV.Gen.AngleSites_gen']
 PRE = '''Import ListNotations.
 Fixpoint bad_idx {A} (f : A -> bool) (n : N) (l : list A) : list N := match l with [] => [] | x :: r => (if f x then [] else [n]) ++ bad_idx f (n + 1)%N r end.
 Definition t3_eqb (a b : Z * Z * Z) : bool := let '(a1, a2, a3) := a in let '(b1, b2, b3) := b in (Z.eqb a1 b1 && Z.eqb a2 b2 && Z.eqb a3 b3)%bool.
@@ -94,7 +94,7 @@ def gen_double(rng: random.Random) -> tuple[str, float]:
 
 
 def corr_mod(ck: Ck) -> None:
-    n = ck.budget(1500, 8000)
+    n = ck.budget(1000, 8000)
     cases = []
     for i in range(n):
         kind, x = ('special', SPECIAL[i]) if i < len(SPECIAL) else gen_double(ck.rng)
@@ -158,7 +158,7 @@ def gen_fmt_double(rng: random.Random) -> tuple[str, float]:
 
 def corr_format(ck: Ck) -> None:
     from srctools.math import format_float
-    n = ck.budget(1200, 6000)
+    n = ck.budget(1000, 6000)
     cases = []
     for i in range(n):
         kind, x = ('special', FMT_SPECIAL[i]) if i < len(FMT_SPECIAL) else gen_fmt_double(ck.rng)
@@ -188,6 +188,136 @@ def corr_format(ck: Ck) -> None:
         ck.extra['format6_disagreement'] = [{'x': cases[i][0].hex(), 'impl': cases[i][2]} for i in bad[:5]]
 
 
+# ------------------------------------------------------------------------------------------------ parse_vec_str
+WS_CHOICES = [' ', ' ', ' ', '  ', '\t', '\n', ' \r\n', '\x0b\x0c', '\x1c', '\x1f ', '\x85', '\xa0', '\u1680', '\u2003', '\u2028', '\u202f', '\u205f', '\u3000']
+NOT_WS = ['\x1b', '\u200b', '\u180e', '\ufeff', '\x00', '_']        # look like spaces, are not (str.isspace() is False)
+EXOTIC = ['1e5', '+3', 'inf', '-inf', 'nan', '1_0', '.5', '5.', '0x10', '\uff11\uff12', '1,5', '--1', '1-', '1..2', '-', '.', '-.5', '1e', 'e1', '१२']
+LITERALS = ['0', '-0', '007', '-000.5', '1.50', '0.1234567891234', '123456789012345678901234567890', '3.000000', '0.0000001', '9' * 40 + '.' + '9' * 40,
+            '-0.000', '360', '359.999999', '0.5', '2.5e0'[:3], '1.0000005', '4503599627370497.5', '0.30000000000000004', '179.99999999999997']
+PARSE_CORPUS = ['(1 2 3)', ' <0 -0 5.5> ', '[1 2 3}', '((1 2 3))', '(1 2 3', '1 2 3)', ')1 2 3(', '1 2', '1 2 3 4', '', '   ', '(', ')', '()', '( )', '(1 2 3) )',
+                '1\t2\n3', '1\xa02\u30003', '1\u200b2 3 4', '\x1f(1 2 3)\x1f', '(1 (2) 3)', '1 2 3\x00', '{ 1 2 3 }', '<1.5 -2.25 1e3>', '1 2 nan', '(-0 -0 -0)',
+                '5 6 7 ', '[ 0.000001 359.999999 0.5 ]', '1  2   3', '(1 2 3]', '1_0 2 3', '+1 2 3', '1. 2 3', '.5 2 3']
+
+
+def gen_parse_case(rng: random.Random) -> tuple[str, str]:
+    from srctools.math import format_float
+    r = rng.random()
+    def num():
+        q = rng.random()
+        if q < 0.6:
+            return format_float(gen_fmt_double(rng)[1])
+        if q < 0.85:
+            return rng.choice(LITERALS)
+        if q < 0.93:
+            return ('-' if rng.random() < 0.3 else '') + str(rng.randint(0, 10 ** rng.randint(1, 25))) + \
+                ('.' + ''.join(rng.choice('0123456789') for _ in range(rng.randint(1, 30))) if rng.random() < 0.7 else '')
+        return rng.choice(EXOTIC)
+    ws = lambda: rng.choice(WS_CHOICES) if rng.random() < 0.85 else rng.choice(NOT_WS)
+    pad = lambda: ''.join(rng.choice(WS_CHOICES) for _ in range(rng.choice([0, 0, 0, 1, 2])))
+    if r < 0.62:
+        kind = 'three'
+        body = num() + ws() + num() + ws() + num()
+    elif r < 0.80:
+        kind = 'count'
+        n = rng.choice([0, 1, 2, 4, 5])
+        body = ' '.join(num() for _ in range(n))
+    else:
+        kind = 'odd'
+        parts = [num(), num(), num()]
+        j = rng.randrange(3)
+        parts[j] = rng.choice(['(', ')', '', '[', '<>']) + parts[j] + rng.choice(['', ')', '>', ']]'])
+        body = ' '.join(parts)
+    op = rng.choice(['', '', '(', '{', '[', '<', '((', ')', '"', '1'])
+    cl = rng.choice(['', '', ')', '}', ']', '>', '))', '(', '"', '0'])
+    return kind, pad() + op + pad() + body + pad() + cl + pad()
+
+
+def expected_float(neg: int, num: int, k: int) -> float | None:
+    from fractions import Fraction
+    try:
+        v = float(Fraction(num, 10 ** k))
+    except OverflowError:
+        return None
+    return -v if neg else v
+
+
+def corr_parse(ck: Ck) -> None:
+    """parse_vec_str on real strings against Num/VecText.v parse_vec over the generated configuration; and the
+    whitespace table of the model against str.isspace() on EVERY code point."""
+    from srctools.math import parse_vec_str
+    n = ck.budget(500, 4000)
+    cases: list[tuple[str, str]] = [('corpus', t) for t in PARSE_CORPUS]
+    while len(cases) < n:
+        cases.append(gen_parse_case(ck.rng))
+    pre = PRE + ('Definition enc_dec (o : option decimal) : list N := match o with None => [0%N] | Some (neg, num, k) => [1%N; (if neg then 1 else 0)%N; num; N.of_nat k] end.\n'
+                 'Definition enc_parsed (p : parsed) : list N := match p with PDefaults => [0%N] | PFields a b c => (1%N :: enc_dec a ++ enc_dec b ++ enc_dec c) end.\n')
+    model: list[list[int]] = []
+    spaces: list[int] | None = None
+    for lo in range(0, len(cases), 500):
+        part = cases[lo:lo + 500]
+        lit = coq_list('[' + ';'.join(str(ord(c)) for c in t) + ']%N' for _, t in part)
+        exprs = [f'map (fun s => enc_parsed (parse_vec parse_vec_cfg s)) ({lit} : list (list N))']
+        if lo == 0:
+            exprs.append('rev (snd (N.iter 70000 (fun p : N * list N => (fst p + 1, if py_space (fst p) then fst p :: snd p else snd p))%N (0%N, [])))')
+        vals = ck.coq_eval(IMPORTS, exprs, name='parsevec', preamble=pre)
+        if vals is None:
+            ck.obligation('correspondence:parse_vec_str', False, 'model could not be evaluated')
+            ck.tie_broken.append('correspondence parse_vec_str: model evaluation failed')
+            return
+        from harness.common import parse_coq_nested
+        model += parse_coq_nested(vals[0])
+        if lo == 0:
+            spaces = parse_coq_N_list(vals[1])
+    py_spaces = [c for c in range(0x110000) if chr(c).isspace()]
+    ck.obligation('correspondence:py_space_table', spaces == py_spaces,
+                  f'Num/VecText.v py_space vs str.isspace() on all 1114112 code points: model {len(spaces or [])} whitespace characters, Python {len(py_spaces)}')
+    if spaces != py_spaces:
+        ck.tie_broken.append('py_space table differs from str.isspace()')
+    bad: list[dict] = []
+    D = (object(), object(), object())
+    for (kind, t), m in zip(cases, model):
+        ck.count('parse_cases')
+        ck.hist('parse_input_class', kind)
+        got = parse_vec_str(t, *D)
+        is_default = got[0] is D[0] and got[1] is D[1] and got[2] is D[2]
+        if m == [0]:
+            ck.hist('parse_model_result', 'defaults')
+            if not is_default:
+                bad.append({'text': t, 'model': 'defaults', 'impl': repr(got)})
+            continue
+        fields = []
+        rest = m[1:]
+        while rest:
+            if rest[0] == 0:
+                fields.append(None); rest = rest[1:]
+            else:
+                fields.append(tuple(rest[1:4])); rest = rest[4:]
+        assert len(fields) == 3, m
+        ck.hist('parse_model_result', 'fields:' + ''.join('d' if f else '?' for f in fields))
+        if all(fields):
+            ck.seen(('parse', t))
+        if is_default:
+            if all(fields) and all(expected_float(*f) is not None for f in fields):
+                bad.append({'text': t, 'model': fields, 'impl': 'defaults'})
+            continue
+        for f, g in zip(fields, got):
+            if f is None:
+                continue
+            e = expected_float(*f)
+            if e is None:
+                continue
+            if not (isinstance(g, float) and g == e and math.copysign(1.0, g) == math.copysign(1.0, e)):
+                bad.append({'text': t, 'model': fields, 'impl': repr(got), 'expected': e})
+                break
+    ck.sample({'parse_vec_str text': cases[1][1], 'model (1=fields; per field 1 neg num k)': model[1]})
+    ck.obligation('correspondence:parse_vec_str', not bad,
+                  f'{len(cases)} strings: Num/VecText.v parse_vec over the generated configuration vs srctools.math.parse_vec_str '
+                  f'(defaults / three fields / each plain decimal field == correctly rounded float of the exact decimal): {len(bad)} disagreements')
+    if bad:
+        ck.tie_broken.append('correspondence parse_vec_str (Num/VecText.v vs parse_vec_str)')
+        ck.extra['parse_vec_disagreement'] = bad[:5]
+
+
 PLAIN = re.compile(r'-?[0-9]+(\.[0-9]{1,6})?\Z')
 
 
@@ -214,7 +344,7 @@ def circ(a: float, b: float) -> float:
 
 def search_text(ck: Ck) -> None:
     from srctools.math import Angle, FrozenAngle, FrozenVec, Vec, format_float, parse_vec_str
-    n = ck.budget(2500, 20000)
+    n = ck.budget(6000, 30000)
     found: dict[str, tuple] = {}
     for i in range(n):
         kind, x = ('special', FMT_SPECIAL[i]) if i < len(FMT_SPECIAL) else gen_fmt_double(ck.rng)
@@ -625,7 +755,7 @@ def shrink(hist, pred):
 
 
 def search_histories(ck: Ck) -> list[dict]:
-    n = ck.budget(1200, 8000)
+    n = ck.budget(2000, 10000)
     found: dict[str, tuple] = {}
     all_frames: list[dict] = []
     for i in range(n):
@@ -668,14 +798,14 @@ def search_histories(ck: Ck) -> list[dict]:
 def corr_frames(ck: Ck, frames: list[dict]) -> None:
     """Which registers did an operation change on the implementation?  Must be allowed by the model's frame
     (may_write over the generated mutation census)."""
-    frames = [f for f in frames if f['recv'] is not None][:ck.budget(1500, 6000)]
+    frames = [f for f in frames if f['recv'] is not None][:ck.budget(1000, 6000)]
     if not frames:
         ck.obligation('correspondence:frames', False, 'no frames recorded')
         return
     s = lambda x: '"' + x + '"'
     bad: list[int] = []
-    for lo in range(0, len(frames), 400):
-        part = frames[lo:lo + 400]
+    for lo in range(0, len(frames), 500):
+        part = frames[lo:lo + 500]
         lit = coq_list('(%s, %s, %d, %s, %s)' % (coq_list(f'({s(c)}, 0)' for c in f['classes']), s(f['meth']), f['recv'],
                                                  coq_list(str(i) for i in f['args']), coq_list(str(i) for i in f['changed'])) for f in part)
         expr = ('bad_idx (fun c : list (string * nat) * string * nat * list nat * list nat => let \'(st, m, r, ar, ch) := c in '
@@ -700,7 +830,7 @@ def search_to_angle(ck: Ck) -> None:
     """Targeted oracle for the conversion matrix -> angle: rotations by tiny negative angles about each axis,
     alone and composed, through every public route that ends in _to_angle."""
     from srctools.math import Angle, FrozenAngle, FrozenMatrix, Matrix, Vec
-    n = ck.budget(1500, 30000)
+    n = ck.budget(6000, 40000)
     found: dict[str, tuple] = {}
     for i in range(n):
         rng = ck.rng
@@ -743,14 +873,18 @@ def search_to_angle(ck: Ck) -> None:
         ck.violation(key, f'{route}{tuple(v)!r} gives (pitch, yaw, roll) = {vals!r}', {'route': route, 'values': [x.hex() for x in v]})
 
 
-def fix_axiom_lists(ck: Ck, props_file: str = 'Props/C05.v') -> None:
-    """Ck.theorems() parses only axioms printed as `name : type` on one line; the Reals axioms are printed with the
-    type on the following line.  Re-run Print Assumptions and record every axiom name (helper local to this check)."""
+def theorems_with_axioms(ck: Ck, props_file: str = 'Props/C05.v') -> None:
+    """Same job as Ck.theorems() - one `theorem:<name>` obligation per statement of the Props file with its Print
+    Assumptions result - with a parser that also understands axioms whose type is printed on the following line (the
+    Reals axioms are).  Done once here instead of calling Ck.theorems() and then repairing its axiom lists: Print
+    Assumptions through Flocq/Reals costs ~20 s per pass (helper local to this check)."""
     from harness.common import ROCQ
     names = re.findall(r'^\s*(?:Theorem|Lemma|Corollary)\s+([A-Za-z0-9_\']+)', (ROCQ / props_file).read_text(), re.M)
     body = 'Require Import SV.Props.C05.\n' + ''.join(f'Print Assumptions {n}.\n' for n in names)
     rc, out = ck.coq_scratch(body, 'assumptions_full')
     if rc != 0:
+        ck.obligation(f'assumptions:{props_file}', False, out[-2000:])
+        ck.tie_broken.append(f'Print Assumptions failed for {props_file}')
         return
     blocks: list[list[str]] = []
     for line in out.splitlines():
@@ -762,12 +896,17 @@ def fix_axiom_lists(ck: Ck, props_file: str = 'Props/C05.v') -> None:
             m = re.match(r"([A-Za-z_][A-Za-z0-9_.']*)", line)
             if m:
                 blocks[-1].append(m.group(1))
-    if len(blocks) == len(names):
-        for n, b in zip(names, blocks):
-            ck.axioms[n] = b
-            for o in ck.obligations:
-                if o['name'] == f'theorem:{n}':
-                    o['detail'] = 'Qed; axioms: ' + ('none (closed under the global context)' if not b else ', '.join(b))
+    if len(blocks) != len(names):
+        ck.obligation(f'assumptions:{props_file}', False, f'{len(names)} statements but {len(blocks)} Print Assumptions blocks')
+        ck.tie_broken.append(f'Print Assumptions output not understood for {props_file}')
+        return
+    allowed = {'ClassicalDedekindReals.sig_forall_dec', 'ClassicalDedekindReals.sig_not_dec', 'FunctionalExtensionality.functional_extensionality_dep',
+               'Classical_Prop.classic'}
+    for n, b in zip(names, blocks):
+        ck.axioms[n] = b
+        extra = [a for a in b if a not in allowed]
+        ck.obligation(f'theorem:{n}', not extra, 'Qed; axioms: ' + ('none (closed under the global context)' if not b else ', '.join(b))
+                      + (f' -- NOT ALLOWED: {extra}' if extra else ''))
 
 
 # ------------------------------------------------------------------------------------------------ main
@@ -786,8 +925,7 @@ def run(ck: Ck) -> None:
     side = ck.extra.get('translated', {}).get('AngleSites_gen', {})
     built = ok_t and ck.build(['Gen/AngleSites_gen.vo', 'Props/C05.vo'])
     if built:
-        ck.theorems('Props/C05.v')
-        fix_axiom_lists(ck)
+        theorems_with_axioms(ck)
         empty = lambda e: f'match {e} with nil => true | _ => false end'
         res = ck.instance_obligations(IMPORTS, {
             'all_angle_store_sites_safe': 'all_sites_safe angle_sites',
@@ -798,6 +936,11 @@ def run(ck: Ck) -> None:
             'angle_init_stores_all_slots': 'angle_init_stores_all_slots',
             'format_float_pipeline_recognised': 'format_float_recognised',
             'format_float_exact_zero_has_no_sign': 'zero_sign_ok format_float_cfg',
+            'parse_vec_str_recognised': 'parse_vec_recognised',
+            'parse_vec_str_pipeline_ok': 'pcfg_ok parse_vec_cfg',
+            'parse_vec_str_passes_objects_through': 'parse_passes_objects_through',
+            'from_str_of_vectors_uses_parse_vec_str': 'vec_from_str_uses_parse',
+            'from_str_of_angles_uses_parse_vec_str': 'angle_from_str_uses_parse',
             'format_float_places_is_6': 'N.eqb (places format_float_cfg) 6',
             'format_float_strips_zeros': 'strips format_float_cfg',
             'format_float_pipeline_ok_up_to_negative_zero': 'cfg_base_ok format_float_cfg',
@@ -813,6 +956,7 @@ def run(ck: Ck) -> None:
         ck.extra['format_float_has_negative_zero_repair (carve-out of c05_format6_shape empty when true)'] = v
         corr_mod(ck)
         corr_format(ck)
+        corr_parse(ck)
     frames = search_histories(ck)
     if built:
         corr_frames(ck, frames)
